@@ -365,6 +365,7 @@ func TestVerif_C41_Throttler(t *testing.T) {
 		var st c41cStats
 		var ran int64
 		reported := map[string]bool{}
+		perClass := map[string]int{}
 		tl := make([]c41cSym, sc.L)
 		capped := false
 		for idx := int64(0); idx < total; idx++ {
@@ -395,8 +396,9 @@ func TestVerif_C41_Throttler(t *testing.T) {
 			if i >= 0 {
 				names := c41cNames(tl[:i+1])
 				key := sc.name + "/" + class + "/" + strings.Join(names, ",")
-				if !reported[key] && len(reported) < 8 {
+				if !reported[key] && perClass[class] < 2 {
 					reported[key] = true
+					perClass[class]++
 					r.Violation(P, key, msg+"\n  timeline: "+strings.Join(names, " ; "), c41cReplay{Scenario: sc.name, Events: names})
 				}
 			}
